@@ -15,10 +15,10 @@ theorem snoc_of_ne_nil {α : Type} {l : List α} (h : l ≠ []) : ∃ init a, l 
   · exact absurd e h
   · exact ⟨i, b, by rw [e, List.concat_eq_append]⟩
 
-/-- **`__insert_node`** of a detached subtree at a non-root path, under the id guard -/
+/-- **`__insert_node`** of a detached subtree at a non-root path; the node's id is not the root's -/
 theorem insertNode_spec {c : Cfg} (g : CfgGood c) {s : HC} {i : Nat} {ks : List Str} (hk : KsOk c ks) (hne : ks ≠ [])
     (hc : Coherent c s) (hsub : Sub c s i)
-    (hfree : ∀ o, (s.nd i).oid = some o → o ≠ 0 → ChainFree s o ks.dropLast) :
+    (hroot : ∀ o, (s.nd i).oid = some o → o ≠ 0 → (s.nd 0).oid ≠ some o) :
     ∀ f out, insertNode c f i (canon c.sep ks) s = out →
       Coherent c out.1 ∧ (out.2 = .ok () → res out.1 ks = some i ∧ (∀ q, resFrom out.1 i q = resFrom s i q) ∧
         (out.1.nd i).oid = (s.nd i).oid ∧ (out.1.nd i).type = (s.nd i).type ∧
@@ -34,48 +34,88 @@ theorem insertNode_spec {c : Cfg} (g : CfgGood c) {s : HC} {i : Nat} {ks : List 
       fun q m h => Or.inl ⟨h, rfl⟩⟩
   | succ f =>
     obtain ⟨init, a, rfl⟩ := snoc_of_ne_nil hne
-    simp only [List.dropLast_concat] at hfree
-    rw [insertNode_succ, bind_run, hsplit_canon_snoc g hk] at hout
-    simp only at hout
-    obtain ⟨epb, hjb, hfb⟩ := ensurePar_spec g f s init hk.left hc _ rfl
-    cases hens : ensurePar c f (canon c.sep init) s with
-    | mk sb rb =>
-      rw [hens] at hout epb hjb hfb
-      simp only at epb hjb hfb
-      cases rb with
-      | error e =>
-        simp only at hout; subst hout
-        refine ⟨epb.coh, fun h => by simp at h, fun hl => by simpa using hfb (by simp at hl; omega), fun q m h => ?_⟩
-        rcases epb.keep q m h with a1 | a1
-        · exact Or.inl a1
-        · exact Or.inr (Or.inr a1)
-      | ok j =>
-        simp only at hout
-        have hE : ∀ m, InSub s i m → ¬ (s.heap.length ≤ m) := fun m ⟨r, hr⟩ hm => by
-          have := hsub.valid_all r m hr; omega
-        have hsubb : Sub c sb i := hsub.frame epb.frameX hE epb.idsub
-        have hndi : sb.nd i = s.nd i := epb.frameX.nd i hsub.valid (hsub.unreach [] i rfl) (hE i ⟨[], rfl⟩)
-        obtain ⟨cp, hsucc, hnf⟩ := insertTail_spec g epb.coh hsubb hk (hjb j rfl)
-          (fun o ho h0 => (hfree o (by rw [← hndi]; exact ho) h0).keep (epb.keep.chain init)) _ hout
-        refine ⟨cp.coh, fun h => ⟨(hsucc h).1, fun q => ?_, by rw [cp.fi.1, hndi], by rw [cp.fi.2, hndi], fun m hm => ?_⟩,
-          fun _ => hnf, fun q m h => ?_⟩
-        rotate_left 2
-        · rcases cp.shrink q m h with b1 | ⟨r, hr⟩
-          · rcases epb.keep q m b1 with ⟨a1, a2⟩ | a1
-            · exact Or.inl ⟨a1, by rw [cp.oid_same]; exact a2⟩
-            · exact Or.inr (Or.inr (by rw [cp.oid_same]; exact a1))
-          · exact Or.inr (Or.inl ⟨r, by rw [← hsub.resFrom_frame epb.frameX hE]; exact hr⟩)
-        · rw [(hsucc h).2 q, hsub.resFrom_frame epb.frameX hE]
-        · obtain ⟨r, hr⟩ := hm
-          rw [cp.oid_same m, epb.frameX.nd m (hsub.valid_all r m hr) (hsub.unreach r m hr) (hE m ⟨r, hr⟩)]
+    rw [insertNode_succ, bind_run] at hout
+    obtain ⟨dp, hok2, hnone2, hfresh2⟩ := insertPre_spec g hk hne hc hsub hroot _ rfl
+    cases hpre : insertPre c i (canon c.sep (init ++ [a])) s with
+    | mk s2 r2 =>
+      rw [hpre] at hout dp hok2 hnone2 hfresh2
+      simp only at dp hok2 hnone2 hfresh2
+      subst hok2
+      simp only at hout
+      rw [bind_run, hsplit_canon_snoc g hk] at hout
+      simp only at hout
+      have hE0 : ∀ m, InSub s i m → ¬ False := fun _ _ h => h
+      have hsub2 : Sub c s2 i := hsub.frame (dp.frameX (fun _ => False)) hE0 dp.idsub
+      have hres2 : ∀ q, resFrom s2 i q = resFrom s i q := hsub.resFrom_frame (dp.frameX (fun _ => False)) hE0
+      have hnd2 : ∀ m, InSub s i m → s2.nd m = s.nd m := fun m ⟨r, hr⟩ => dp.frame m (hsub.unreach r m hr)
+      obtain ⟨epb, hjb, hfb⟩ := ensurePar_spec g f s2 init hk.left dp.coh _ rfl
+      cases hens : ensurePar c f (canon c.sep init) s2 with
+      | mk sb rb =>
+        rw [hens] at hout epb hjb hfb
+        simp only at epb hjb hfb
+        have hkeep_b : ∀ q m, res sb q = some m →
+            (res s q = some m ∧ (sb.nd m).oid = (s.nd m).oid) ∨ (sb.nd m).oid = none := by
+          intro q m h
+          rcases epb.keep q m h with ⟨a1, a2⟩ | ⟨_, a1⟩
+          · rcases dp.keep init q m a1 with ⟨b1, b2⟩ | ⟨_, b1⟩
+            · exact Or.inl ⟨b1, a2.trans b2⟩
+            · exact Or.inr (a2.trans b1)
+          · exact Or.inr a1
+        cases rb with
+        | error e =>
+          simp only at hout; subst hout
+          refine ⟨epb.coh, fun h => by simp at h, fun hl => by simpa using hfb (by simp at hl; omega), fun q m h => ?_⟩
+          rcases hkeep_b q m h with a1 | a1
+          · exact Or.inl a1
+          · exact Or.inr (Or.inr a1)
+        | ok j =>
+          simp only at hout
+          have hE : ∀ m, InSub s2 i m → ¬ (s2.heap.length ≤ m) := fun m ⟨r, hr⟩ hm => by
+            have := hsub2.valid_all r m hr; omega
+          have hsubb : Sub c sb i := hsub2.frame epb.frameX hE epb.idsub
+          have hndb : ∀ m, InSub s i m → sb.nd m = s.nd m := fun m hm => by
+            obtain ⟨r, hr⟩ := hm
+            have hm2 : InSub s2 i m := ⟨r, by rw [hres2]; exact hr⟩
+            obtain ⟨r2, hr2⟩ := hm2
+            rw [epb.frameX.nd m (hsub2.valid_all r2 m hr2) (hsub2.unreach r2 m hr2) (hE m ⟨r2, hr2⟩)]
+            exact hnd2 m ⟨r, hr⟩
+          have hndi : sb.nd i = s.nd i := hndb i ⟨[], rfl⟩
+          have hnoneb : res sb (init ++ [a]) = none := by
+            cases hx : res sb (init ++ [a]) with
+            | none => rfl
+            | some m =>
+              exfalso
+              rcases epb.keep _ m hx with ⟨h1, _⟩ | ⟨h1, _⟩
+              · rw [hnone2] at h1; simp at h1
+              · have := h1.length_le; simp at this; omega
+          have hfreshb : ∀ o, (sb.nd i).oid = some o → o ≠ 0 → dget sb.idmap o = none := by
+            intro o ho h0
+            have := hfresh2 o (by rw [← hndi]; exact ho) h0
+            rw [dget_none] at this ⊢
+            intro hk'
+            obtain ⟨e, he, rfl⟩ := List.mem_map.1 hk'
+            exact this (List.mem_map.2 ⟨e, epb.idsub e he, rfl⟩)
+          obtain ⟨cp, hsucc, hnf⟩ := insertTail_spec g epb.coh hsubb hk (hjb j rfl) hnoneb hfreshb _ hout
+          have hresb : ∀ q, resFrom sb i q = resFrom s i q := fun q => by
+            rw [hsub2.resFrom_frame epb.frameX hE, hres2]
+          refine ⟨cp.coh, fun h => ⟨(hsucc h).1, fun q => ?_, by rw [cp.fi.1, hndi], by rw [cp.fi.2, hndi], fun m hm => ?_⟩,
+            fun _ => hnf, fun q m h => ?_⟩
+          · rw [(hsucc h).2 q, hresb]
+          · rw [cp.oid_same m, hndb m hm]
+          · rcases cp.shrink q m h with b1 | ⟨r, _, hr⟩
+            · rcases hkeep_b q m b1 with ⟨a1, a2⟩ | a1
+              · exact Or.inl ⟨a1, by rw [cp.oid_same]; exact a2⟩
+              · exact Or.inr (Or.inr (by rw [cp.oid_same]; exact a1))
+            · exact Or.inr (Or.inl ⟨r, by rw [← hresb]; exact hr⟩)
 
 /-- **`__make_node`** at a non-root path, under the id guard -/
 theorem makeNode_spec {c : Cfg} (g : CfgGood c) {s : HC} (hc : Coherent c s) (otype : OType) (path : Str) (oid : Option Oid)
     (hne : tcomps c path ≠ [])
-    (hfree : ∀ o, oid = some o → o ≠ 0 → ChainFree s o (tcomps c path).dropLast) :
+    (hroot : ∀ o, oid = some o → o ≠ 0 → (s.nd 0).oid ≠ some o) :
     ∀ out, makeNode c otype path oid s = out →
       Coherent c out.1 ∧ (∀ i, out.2 = .ok i → res out.1 (tcomps c path) = some i ∧ (out.1.nd i).oid = oid ∧
-        (out.1.nd i).type = otype ∧ ∀ r, r ≠ [] → res out.1 (tcomps c path ++ r) = none) ∧ out.2 ≠ .error .fuel ∧
+        (out.1.nd i).type = otype ∧ (∀ r, r ≠ [] → res out.1 (tcomps c path ++ r) = none) ∧ i = s.heap.length) ∧
+      out.2 ≠ .error .fuel ∧
       (∀ q m, res out.1 q = some m →
         (res s q = some m ∧ (out.1.nd m).oid = (s.nd m).oid) ∨ m = s.heap.length ∨ (out.1.nd m).oid = none) := by
   intro out hout
@@ -91,14 +131,12 @@ theorem makeNode_spec {c : Cfg} (g : CfgGood c) {s : HC} (hc : Coherent c s) (ot
   have hsuba : Sub c { s with heap := s.heap ++ [nnode] } s.heap.length := Sub.fresh hc nnode h1 h3
   have hnda : ({ s with heap := s.heap ++ [nnode] } : HC).nd s.heap.length = nnode := by rw [nd_alloc]; simp
   have hfa : ∀ o, (({ s with heap := s.heap ++ [nnode] } : HC).nd s.heap.length).oid = some o → o ≠ 0 →
-      ChainFree { s with heap := s.heap ++ [nnode] } o (tcomps c path).dropLast := by
-    intro o ho h0 q hq m hm
+      (({ s with heap := s.heap ++ [nnode] } : HC).nd 0).oid ≠ some o := by
+    intro o ho h0
     rw [hnda, h2] at ho
-    rw [res_alloc hc] at hm
     rw [nd_alloc]
-    have := hc.valid ⟨q, hm⟩
-    simp only [Nat.ne_of_lt this, if_false]
-    exact hfree o ho h0 q hq m hm
+    simp only [Nat.ne_of_lt hc.root_valid, if_false]
+    exact hroot o ho h0
   have hins := insertNode_spec g (tcomps_ok g path) hne hca hsuba hfa
   simp only [insert] at hout
   cases hrun : insertNode c (insFuel (canon c.sep (tcomps c path))) s.heap.length (canon c.sep (tcomps c path))
@@ -143,7 +181,7 @@ theorem makeNode_spec {c : Cfg} (g : CfgGood c) {s : HC} (hc : Coherent c s) (ot
           refine ⟨hct, fun i h => ?_, by simp, hkeep⟩
           cases h
           obtain ⟨a1, a2, a3, a4, _⟩ := hsucc rfl
-          refine ⟨a1, by rw [a3, hnda, h2], by rw [a4, hnda, h4], fun r hr => ?_⟩
+          refine ⟨a1, by rw [a3, hnda, h2], by rw [a4, hnda, h4], fun r hr => ?_, rfl⟩
           unfold res at a1 ⊢
           rw [resFrom_append, a1]
           simp only [Option.bind_some]
@@ -155,43 +193,66 @@ theorem makeNode_spec {c : Cfg} (g : CfgGood c) {s : HC} (hc : Coherent c s) (ot
 theorem setOidNode_run (c : Cfg) (n : Nat) (oid : Oid) (s : HC) :
     setOidNode c n oid s =
       if (s.nd n).oid = some oid then (s, .ok ()) else
-        match delete c (some oid) none s with
-        | (s1, .error e) => (s1, .error e)
-        | (s1, .ok _) =>
-          match (s1.nd n).oid with
-          | none =>
-            if checkOk s1 n then
-              ({ s1.setNd n { s1.nd n with oid := some oid } with
-                  idmap := dset (s1.setNd n { s1.nd n with oid := some oid }).idmap oid n }, .ok ())
-            else (s1, .error .assertion)
-          | some _ =>
-            match fullPath c s1 n with
+        match fullPath c s n with
+        | .error e => (s, .error e)
+        | .ok fp0 =>
+          match delete c (some oid) none s with
+          | (s1, .error e) => (s1, .error e)
+          | (s1, .ok _) =>
+            match (match (s1.nd n).oid with
+                    | none => (match fullPath c s1 n with
+                                | .error e => (.error e : Except Err Bool)
+                                | .ok fp1 => .ok fp1.isSome)
+                    | some _ => .ok false) with
             | .error e => (s1, .error e)
-            | .ok none => (s1, .error .type)
-            | .ok (some p) =>
-              match makeNode c (s1.nd n).type p (some oid) s1 with
-              | (t, .error e) => (t, .error e)
-              | (t, .ok _) => (t, .ok ()) := by
+            | .ok true =>
+              if checkOk s1 n then
+                ({ s1.setNd n { s1.nd n with oid := some oid } with
+                    idmap := dset (s1.setNd n { s1.nd n with oid := some oid }).idmap oid n }, .ok ())
+              else (s1, .error .assertion)
+            | .ok false =>
+              match fp0 with
+              | none => (s1, .error .type)
+              | some p =>
+                match makeNode c (s1.nd n).type p (some oid) s1 with
+                | (t, .error e) => (t, .error e)
+                | (t, .ok _) => (t, .ok ()) := by
   simp only [setOidNode, bind_run, getS_run]
   by_cases hcond : (s.nd n).oid = some oid
   · simp only [hcond, if_true]; rfl
-  · simp only [hcond, if_false, bind_run]
-    cases delete c (some oid) none s with
-    | mk s1 r1 =>
-      cases r1 with
-      | error e => rfl
-      | ok _ =>
-        simp only [bind_run, getS_run]
-        cases ho : (s1.nd n).oid with
-        | none =>
-          simp only [bind_run, check, modS_run]
-          cases checkOk s1 n <;> simp
-        | some o1 =>
-          simp only [bind_run, fullPathM_run]
-          cases fullPath c s1 n with
-          | error e => rfl
-          | ok fp =>
-            cases fp with
+  · simp only [hcond, if_false, bind_run, fullPathM_run]
+    cases fullPath c s n with
+    | error e => rfl
+    | ok fp0 =>
+      simp only [bind_run]
+      cases delete c (some oid) none s with
+      | mk s1 r1 =>
+        cases r1 with
+        | error e => rfl
+        | ok _ =>
+          simp only [bind_run, getS_run]
+          cases ho : (s1.nd n).oid with
+          | none =>
+            simp only [bind_run, fullPathM_run]
+            cases fullPath c s1 n with
+            | error e => rfl
+            | ok fp1 =>
+              simp only [pure_run]
+              cases fp1 with
+              | some p1 =>
+                simp only [Option.isSome_some, if_true, bind_run, check, modS_run]
+                cases checkOk s1 n <;> simp
+              | none =>
+                simp only [Option.isSome_none, Bool.false_eq_true, if_false]
+                cases fp0 with
+                | none => rfl
+                | some p =>
+                  simp only [bind_run]
+                  cases makeNode c (s1.nd n).type p (some oid) s1 with
+                  | mk t r => cases r <;> rfl
+          | some o1 =>
+            simp only [pure_run, Bool.false_eq_true, if_false]
+            cases fp0 with
             | none => rfl
             | some p =>
               simp only [bind_run]
@@ -340,76 +401,91 @@ theorem DelCtx.sub {c : Cfg} {s : HC} {init : List Str} {a : Str} {p n : Nat} (d
     rw [hres] at hm; rw [hoid] at ho
     exact d.detach_dget_in ⟨q, m, hm, ho, h0⟩
 
-/-! ### facts about `delete` used by the operations -/
+/-! ### facts about `delete(oid=…)` used by `_set_oid` -/
 
-theorem ChainFree.delPost {c : Cfg} {s s' : HC} {o : Oid} {ks : List Str} (h : ChainFree s o ks) (hd : DelPost c s s') :
-    ChainFree s' o ks := by
-  intro q hq m hm
-  rw [(hd.fields m).2.1]
-  rcases hd.shrink q with a | a
-  · rw [a] at hm; simp at hm
-  · exact h q hq m (by rw [← a]; exact hm)
+/-- a node below a node whose parent link has been cut does not lead to the root any more: `full_path()` of it
+    is None (or raises), never a path -/
+theorem fullPath_below_detached {c : Cfg} {s s1 : HC} {kx : List Str} {x : Nat} (hc : Coherent c s) (dp : DelPost c s s1)
+    (hx : res s kx = some x) (hx0 : x ≠ 0) (hpar : (s1.nd x).parent = none) :
+    ∀ r n, res s (kx ++ r) = some n → ∀ p, fullPath c s1 n ≠ .ok (some p) := by
+  have hnotroot : ∀ q m, q ≠ [] → res s q = some m → (s1.nd m).isRoot = false := by
+    intro q m hq hm
+    obtain ⟨i, k, rfl⟩ := snoc_of_ne_nil hq
+    obtain ⟨p', hp', hk⟩ := res_snoc_some hm
+    rw [(dp.fields m).2.2.2]
+    exact (hc.link ⟨_, hp'⟩ (dget_mem hk)).2.2.2.1
+  have hkx : kx ≠ [] := fun e => by rw [e] at hx; simp at hx; exact hx0 hx.symm
+  have key : ∀ r n, res s (kx ++ r) = some n → ∀ f seen l, fullPathNodes s1 f n seen = .ok l →
+      ∃ h t, l = h :: t ∧ (s1.nd h).isRoot = false := by
+    intro r
+    induction r using snoc_induction with
+    | hnil =>
+      intro n hn f seen l hl
+      rw [List.append_nil, hx] at hn; cases hn
+      cases f with
+      | zero => simp [fullPathNodes] at hl
+      | succ f =>
+        simp only [fullPathNodes, hpar] at hl
+        split at hl
+        · simp at hl
+        · cases hl
+          exact ⟨x, seen, rfl, hnotroot kx x hkx hx⟩
+    | hsnoc r' k ih =>
+      intro n hn f seen l hl
+      rw [← List.append_assoc] at hn
+      obtain ⟨p', hp', hk⟩ := res_snoc_some hn
+      have hnr : (s1.nd n).isRoot = false := hnotroot _ n (by simp) hn
+      cases f with
+      | zero => simp [fullPathNodes] at hl
+      | succ f =>
+        simp only [fullPathNodes] at hl
+        split at hl
+        · simp at hl
+        · rcases dp.parents n with a | a
+          · rw [a, (hc.link ⟨_, hp'⟩ (dget_mem hk)).2.1] at hl
+            exact ih p' hp' f _ l hl
+          · rw [a] at hl
+            cases hl
+            exact ⟨n, seen, rfl, hnr⟩
+  intro r n hn p hfp
+  simp only [fullPath] at hfp
+  cases hl : fullPathNodes s1 (s1.heap.length + 1) n [] with
+  | error e => rw [hl] at hfp; simp at hfp
+  | ok l =>
+    rw [hl] at hfp
+    obtain ⟨h, t, rfl, hr⟩ := key r n hn _ _ l hl
+    simp [hr] at hfp
 
-/-- after a successful `delete(oid=o)` nothing holds the id `o` any more -/
-theorem delete_oid_gone {c : Cfg} (g : CfgGood c) {s : HC} (hc : Coherent c s) {o : Oid} (h0 : o ≠ 0)
-    (hroot : (s.nd 0).oid ≠ some o) {s1 : HC} {r : Except Err Unit} (hrun : delete c (some o) none s = (s1, r))
-    (hok : r = .ok ()) : dget s1.idmap o = none := by
+/-- what `delete(oid=o)` does to another node `n`: it is still where it was, or it no longer leads to the root -/
+theorem delete_oid_cases {c : Cfg} (g : CfgGood c) {s : HC} (hc : Coherent c s) {o : Oid} (h0 : o ≠ 0)
+    (hroot : (s.nd 0).oid ≠ some o) {kn : List Str} {n : Nat} (hn : res s kn = some n) (hno : (s.nd n).oid ≠ some o)
+    {s1 : HC} (hrun : delete c (some o) none s = (s1, .ok ())) :
+    DelPost c s s1 ∧ dget s1.idmap o = none ∧
+      (res s1 kn = some n ∨ ((∀ p, fullPath c s1 n ≠ .ok (some p)) ∧ ¬ Reach s1 n)) := by
   have hd := delete_spec g s (some o) none hc
   rw [hrun] at hd
-  obtain ⟨e1, e2, e3, e4⟩ := hd
-  simp only at e1 e2 e3 e4
-  obtain ⟨x, hx, hx1, hx2⟩ := hc.getNode_oid o none
-  cases hg : dget s1.idmap o with
-  | none => rfl
-  | some m =>
-    exfalso
-    have hm := e1.coh.dget_idmap.1 hg
-    have hm0 : Reach s m := e1.reach hm.1
-    have ho0 : (s.nd m).oid = some o := by rw [← (e1.fields m).2.1]; exact hm.2.1
-    have hxm := hx2 h0 m hm0 ho0
-    subst hxm
-    obtain ⟨km, hkm⟩ := hm0
-    have hmne : m ≠ 0 := fun e => hroot (e ▸ ho0)
-    have hgone := (e2 m km hx hkm).2 hok hmne
-    obtain ⟨q, hq⟩ := hm.1
-    rcases e1.shrink q with h | h
-    · rw [h] at hq; simp at hq
-    · rw [h] at hq
-      have := hc.res_inj hq hkm
-      subst this
-      rw [hgone q (List.prefix_refl _)] at h
-      rw [hkm] at h; simp at h
-
-/-- where `delete(oid=o)` leaves a node whose chain is free of `o` -/
-theorem delete_oid_keeps {c : Cfg} (g : CfgGood c) {s : HC} (hc : Coherent c s) {o : Oid} {kn : List Str} {n : Nat}
-    (hn : res s kn = some n) (hno : (s.nd n).oid ≠ some o) (hfree : ChainFree s o kn.dropLast)
-    {s1 : HC} {r : Except Err Unit} (hrun : delete c (some o) none s = (s1, r)) :
-    DelPost c s s1 ∧ res s1 kn = some n := by
-  have hd := delete_spec g s (some o) none hc
-  rw [hrun] at hd
-  obtain ⟨e1, e2, e3, e4⟩ := hd
-  simp only at e1 e2 e3 e4
-  refine ⟨e1, ?_⟩
-  obtain ⟨x, hx, hx1, hx2⟩ := hc.getNode_oid o none
+  obtain ⟨e1, e2, e3, _⟩ := hd
+  simp only at e1 e2 e3
+  refine ⟨e1, delete_oid_gone g hc h0 hroot hrun rfl, ?_⟩
+  obtain ⟨x, hx, hx1, _⟩ := hc.getNode_oid o none
   cases x with
-  | none => rw [e3 (fun y hy => by rw [hx] at hy; simp at hy)]; exact hn
+  | none => left; rw [e3 (fun y hy => by rw [hx] at hy; simp at hy)]; exact hn
   | some y =>
     obtain ⟨ky, hky⟩ := (hx1 y rfl).1
-    rw [(e2 y ky hx hky).1 kn ?_]; exact hn
-    intro hp
-    -- ky is a prefix of kn: either equal (then y = n holds o) or a proper prefix (on the chain)
-    by_cases hEq : ky = kn
-    · subst hEq
-      have hyo := (hx1 y rfl).2
-      rw [hn] at hky; cases hky
-      exact hno hyo
-    · have : ky <+: kn.dropLast := by
-        obtain ⟨t, ht⟩ := hp
-        rcases List.eq_nil_or_concat t with rfl | ⟨t', b, rfl⟩
-        · simp at ht; exact absurd ht hEq
-        · rw [List.concat_eq_append] at ht
-          rw [← ht, ← List.append_assoc, List.dropLast_concat]
-          exact List.prefix_append _ _
-      exact hfree ky this y hky (hx1 y rfl).2
+    obtain ⟨a1, a2, a3⟩ := e2 y ky hx hky
+    by_cases hp : ky <+: kn
+    · right
+      have hy0 : y ≠ 0 := fun e => hroot (by rw [← e]; exact (hx1 y rfl).2)
+      obtain ⟨r, rfl⟩ := hp
+      refine ⟨fullPath_below_detached hc e1 hky hy0 (a3 trivial hy0) r n hn, ?_⟩
+      rintro ⟨q, hq⟩
+      rcases e1.shrink q with b | b
+      · rw [b] at hq; simp at hq
+      · rw [b] at hq
+        have := hc.res_inj hq hn
+        subst this
+        rw [a2 trivial hy0 _ (List.prefix_append _ _)] at b
+        rw [hn] at b; simp at b
+    · left; rw [a1 kn hp]; exact hn
 
 end CS.HCache
